@@ -15,7 +15,10 @@
    of a nested repository reported with the outer repository as working directory is recorded nowhere;
    C20_complete_* give the classes in which (C) holds.  C20_scope_collapse_refuted (C20-K2): when every
    listed file lies outside the repository of repo_working_dir, that repository's pass loses its
-   pathspec and scans the whole work tree. *)
+   pathspec and scans the whole work tree.  C20_failed_pass_records_nothing: a repository whose pass
+   fails records nothing; class C20-K7 (one listed path that git refuses: `../ra/x`, the empty string, a
+   NUL byte) enters the model through e_run_fails.  Not modelled, found by the system-level oracle:
+   C20-K5 (i64 overflow in the Copilot session reader), C20-K6 (symlink read through by a whole-tree scan). *)
 From Coq Require Import List NArith Bool.
 From Verif Require Import Base.Str Gen.GenIngest Model.Ingest Proofs.IngestProofs.
 Import ListNotations.
@@ -61,6 +64,11 @@ Theorem C20_no_escape : forall E p h q r,
 Proof. exact no_escape. Qed.
 Print Assumptions C20_no_escape.
 
+Theorem C20_failed_pass_records_nothing : forall E p h q r,
+  recorded_in E (handle_checkpoint E p h) q r -> is_bare r = false /\ e_run_fails E r = false.
+Proof. exact failed_pass_records_nothing. Qed.
+Print Assumptions C20_failed_pass_records_nothing.
+
 Theorem C20_lexical_escape : forall E r f,
   e_stat E f = Missing -> prefixb (workdir r) (lexnorm f) = false -> in_wd E r f = false.
 Proof. exact lexical_escape. Qed.
@@ -91,7 +99,7 @@ Print Assumptions C20_decoder_rejects.
 
 Theorem C20_complete_file_based : forall E base fl s f q r,
   In s fl -> f = absolutize base s ->
-  e_stat E f = IsFile q -> resolve E (parent_raw f) = removelast q ->
+  e_stat E f = IsFile q -> canon E (parent_raw f) = Some (removelast q) ->
   q <> [] -> worktree_root_at (e_layout E) q = None ->
   innermost (e_layout E) q = Some r -> is_submodule r = false ->
   prefixb (resolve E base) (r_root r) = true ->
@@ -102,7 +110,7 @@ Print Assumptions C20_complete_file_based.
 
 Theorem C20_complete_primary : forall E p fl s f q,
   In s fl -> f = absolutize (raw_of_path (workdir p)) s ->
-  in_wd E p f = true -> resolve E f = q -> innermost (e_layout E) q = Some p ->
+  keeps E p f = true -> resolve E f = q -> innermost (e_layout E) q = Some p ->
   e_run_fails E p = false ->
   recorded_in E (primary_mode E p (Some fl)) q p.
 Proof. exact complete_primary. Qed.
@@ -111,7 +119,7 @@ Print Assumptions C20_complete_primary.
 Theorem C20_complete_external : forall E p fl s f q r,
   In s fl -> f = absolutize (raw_of_path (workdir p)) s ->
   in_wd E p f = false ->
-  e_stat E f = IsFile q -> resolve E (parent_raw f) = removelast q ->
+  e_stat E f = IsFile q -> canon E (parent_raw f) = Some (removelast q) ->
   q <> [] -> worktree_root_at (e_layout E) q = None ->
   innermost (e_layout E) q = Some r -> is_submodule r = false ->
   e_allowed E r = true -> e_run_fails E r = false ->
@@ -154,7 +162,7 @@ Example C20_ex_complete_hyps :
   let E := w_env (Some w_ws) in
   let base := raw_of_path w_ws in
   let f := absolutize base [111; 47; 105; 47; 120] in
-  e_stat E f = IsFile q_i_x /\ resolve E (parent_raw f) = removelast q_i_x /\ q_i_x <> [] /\
+  e_stat E f = IsFile q_i_x /\ canon E (parent_raw f) = Some (removelast q_i_x) /\ q_i_x <> [] /\
   worktree_root_at (e_layout E) q_i_x = None /\ innermost (e_layout E) q_i_x = Some w_inner /\
   is_submodule w_inner = false /\ prefixb (resolve E base) (r_root w_inner) = true.
 Proof. exact ex_complete_hyps. Qed.
